@@ -33,6 +33,13 @@ static std::vector<Text> base_universe(bool rich){
   if(rich) for(const char*s:{"S://[::1]/a/b/../c","s://1.2.3.4:80/a/./b/","s:/a/b/c/d/e?q#f","s:x/../y","s://g/a%2Fb/c","t:"}) b.push_back(T(s));
   return b; }
 
+// paths in which dot segments cancel completely IN FRONT of one or more empty segments (what is left starts with "/" or "//"), in every
+// context: the shapes where a produced path can be re-read as an absolute path or as an authority
+static std::vector<Text> ambiguity_family(){
+  std::vector<Text> out; const char* ctx[]={"","s:","s:/","/","//h/","s://h/"}; const char* pre[]={"a/..",".","./.","a/b/../..","..","a/../..","%2e","x/.."}; const char* tail[]={"b","b:c","","b/c","1:2"};
+  for(auto c:ctx) for(auto p:pre) for(int k=1;k<=3;++k) for(auto t:tail){ Text x=T(c)+T(p); for(int i=0;i<k;++i) x.push_back('/'); x.push_back('/'); x=x+T(t); out.push_back(x); }
+  return out; }
+
 // ---------------------------------------------------------------- events
 template<class A> static void addbase_event(const Text&rt,const Text&bt,int opt,int ep){
   auto r=parse_holder<A>(rt), b=parse_holder<A>(bt); if(!r->ok||!b->ok) return;
@@ -113,6 +120,7 @@ VH_DRIVER(algebra){
     for(auto&r:refs) for(auto&b:bases) for(int opt=0;opt<2;++opt){ ++k; if(keep<1.0 && (R.next()%1000000)>=keep*1000000) continue;
       AW(true,k%2,[&]{ addbase_event<ApiA>(r,b,opt,(int)(k%3)); },[&]{ addbase_event<ApiW>(r,b,opt,(int)(k%3)); });
       if(k%5003==0) g.sample(J().str("ref",show(r)).str("base",show(b)).num("opt",opt).done()); }
+    { long q=0; for(auto&r:ambiguity_family()) for(const char*b:{"s:/x/y","s:x/y","s://g/x/y","s:","s://g","t:a"}) for(int opt=0;opt<2;++opt){ ++q; AW(true,q%2,[&]{ addbase_event<ApiA>(r,T(b),opt,(int)(q%3)); },[&]{ addbase_event<ApiW>(r,T(b),opt,(int)(q%3)); }); } }
     // longer random paths
     const char* segs[]={"",".","..","a","b","b:c","%2e","1:2"}; long extra= g.thorough? 200000: 4000;
     for(long i=0;i<extra;++i){ Text r; if(R.below(6)==0) r=T("s:"); if(R.below(5)==0) r.push_back('/'); int n=1+R.below(10); for(int j=0;j<n;++j){ if(j) r.push_back('/'); r=r+T(segs[R.below(8)]); } if(R.below(4)==0) r=r+T("?q"); if(R.below(4)==0) r=r+T("#f");
@@ -123,6 +131,7 @@ VH_DRIVER(algebra){
       std::vector<const char*> alpha={"",".","..","a","A","%41","%7e","%7E","%3a","%3A","%2e","%2E","b:c","%2E%2e","a%4","...","..a","%3A%61","%3A%3a%41","%2E%2E%2e","1:2",":","a_b:c"};
       auto paths=seg_seqs(alpha,g.thorough?3:2);
       for(auto s:sc) for(auto a:au) for(int ab=0;ab<2;++ab) for(auto&sg:paths) { bool nosegs=sg.size()==1&&sg[0]==1; if(*a&&!ab&&!nosegs) continue; const char*q=qf[(in.size())%7]; Text t=T(s)+T(a); if(ab) t.push_back('/'); if(!nosegs) t=t+sg; t=t+T(q); in.push_back(t); } }
+    { long q=0; for(auto&t:ambiguity_family()) for(unsigned m:{63u,8u}) for(int owned=0;owned<2;++owned){ ++q; AW(true,q%2,[&]{ normalize_event<ApiA>(t,m,owned,(int)(q%3)); },[&]{ normalize_event<ApiW>(t,m,owned,(int)(q%3)); }); } }
     static const unsigned masks[]={63,0,1,2,4,8,16,32,8|4,63^8,1|32,0x40|8,0xFFFFFFFFu,0x40,0x100};
     size_t total=in.size()*(g.thorough?64:6); double keep= total>(size_t)want? (double)want/total:1.0; long k=0;
     for(auto&t:in){ int nm= g.thorough?64:6; for(int mi=0;mi<nm;++mi){ ++k; if(keep<1.0 && (R.next()%1000000)>=keep*1000000) continue; unsigned m= g.thorough? (unsigned)mi : masks[(k+mi)%15];
@@ -134,6 +143,7 @@ VH_DRIVER(algebra){
   } else if(mode=="c09"){
     // the witness of known finding KF-C09-1 is replayed first on every run (known_findings.json), so the entry is shown to still reproduce
     if(!g.pair){ c09_event<ApiA>(T("abc/.."),T("s://g/x/y")); c09_event<ApiW>(T("abc/.."),T("s://g/x/y")); normalize_event<ApiA>(T("abc/.."),8,false,1); }
+    { long q=0; for(auto&r:ambiguity_family()){ if(has_pct_dot(r)) continue; for(const char*b:{"s:/x/y","s:x/y","s://g/x/y","s:"}){ ++q; AW(true,q%2,[&]{ c09_event<ApiA>(r,T(b)); },[&]{ c09_event<ApiW>(r,T(b)); }); } } }
     size_t total=refs.size()*bases.size(); double keep= total>(size_t)want? (double)want/total:1.0; long k=0;
     for(auto&r:refs){ if(has_pct_dot(r)) continue; for(auto&b:bases){ ++k; if(b.empty()||b[0]!='s') continue; if(keep<1.0 && (R.next()%1000000)>=keep*1000000) continue; AW(true,k%2,[&]{ c09_event<ApiA>(r,b); },[&]{ c09_event<ApiW>(r,b); });
       if(k%4001==0) g.sample(J().str("ref",show(r)).str("base",show(b)).done()); } }
